@@ -38,21 +38,27 @@ One  == <<1, 1>>
 
 Neg(a) == <<-a[1], a[2]>>
 
-\* IEEE-like: NaN absorbs; inf + (-inf) = NaN
+\* IEEE-like: NaN absorbs; inf + (-inf) = NaN.  Finite operands are added over the least
+\* common denominator so that intermediates stay small (TLC integers are 32-bit).
 Add(a, b) ==
   IF IsNaN(a) \/ IsNaN(b) THEN NaN
   ELSE IF IsInf(a) THEN (IF IsInf(b) /\ b[1] # a[1] THEN NaN ELSE a)
   ELSE IF IsInf(b) THEN b
-  ELSE Norm(<<a[1] * b[2] + b[1] * a[2], a[2] * b[2]>>)
+  ELSE LET g == GCD(a[2], b[2])
+           l == (a[2] \div g) * b[2]
+       IN  Norm(<<a[1] * (l \div a[2]) + b[1] * (l \div b[2]), l>>)
 
 Sub(a, b) == Add(a, Neg(b))
 
-\* IEEE-like: 0 * inf = NaN
+\* IEEE-like: 0 * inf = NaN.  Cross-cancels before multiplying.
 Mul(a, b) ==
   IF IsNaN(a) \/ IsNaN(b) THEN NaN
   ELSE IF IsInf(a) \/ IsInf(b)
        THEN (IF a[1] = 0 \/ b[1] = 0 THEN NaN ELSE <<Sign(a[1]) * Sign(b[1]), 0>>)
-  ELSE Norm(<<a[1] * b[1], a[2] * b[2]>>)
+  ELSE IF a[1] = 0 \/ b[1] = 0 THEN Zero
+  ELSE LET g1 == GCD(Abs(a[1]), b[2])
+           g2 == GCD(Abs(b[1]), a[2])
+       IN  Norm(<<(a[1] \div g1) * (b[1] \div g2), (a[2] \div g2) * (b[2] \div g1)>>)
 
 \* IEEE-like: x/0 = +-inf for x # 0, 0/0 = NaN, x/inf = 0, inf/inf = NaN
 Div(a, b) ==
@@ -60,7 +66,7 @@ Div(a, b) ==
   ELSE IF IsInf(b) THEN (IF IsInf(a) THEN NaN ELSE Zero)
   ELSE IF IsInf(a) THEN (IF b[1] < 0 THEN Neg(a) ELSE a)
   ELSE IF b[1] = 0 THEN <<Sign(a[1]), 0>>
-  ELSE Norm(<<a[1] * b[2], a[2] * b[1]>>)
+  ELSE Mul(a, IF b[1] < 0 THEN <<-b[2], -b[1]>> ELSE <<b[2], b[1]>>)
 
 \* comparisons are only meaningful on non-NaN arguments
 Less(a, b) ==
